@@ -19,6 +19,12 @@ CFG = {
                           "RpmVerif.C06.explicit_mode_i32", "RpmVerif.C06.mode_header_eq_cpio", "RpmVerif.C06.mode_header_eq_cpio_stored",
                           "RpmVerif.C06.with_file_readback", "RpmVerif.C06.readback_flags_of_setters", "RpmVerif.C06.defaults_readback",
                           "RpmVerif.C06.readback_verifyflags",
+                          "RpmVerif.C06.builder_setters_standard", "RpmVerif.C06.builder_new_standard", "RpmVerif.C06.opt_setters_last_call_wins",
+                          "RpmVerif.C06.opt_setters_never_called", "RpmVerif.C06.script_setters_last_call_wins",
+                          "RpmVerif.C06.dep_setters_accumulate_in_order", "RpmVerif.C06.changelog_accumulates_in_order",
+                          "RpmVerif.C06.plain_setters_last_call_wins", "RpmVerif.C06.setters_keep_new_args", "RpmVerif.C06.state_of_calls",
+                          "RpmVerif.C06.url_of_calls", "RpmVerif.C06.new_defaults_readback", "RpmVerif.C06.provides_of_calls",
+                          "RpmVerif.C06.valid_of_cfg", "RpmVerif.C06.valid_of_inputs", "RpmVerif.C06.valid_of_args",
                           "RpmVerif.Pipeline.build_file_entries", "RpmVerif.Pipeline.build_file_entries_reparsed",
                           "RpmVerif.Pipeline.built_history_file_entries", "RpmVerif.Pipeline.built_package_sound"],
     "trivial_branches": ["build-rejected", "ctor-names", "wfile:fs-unsupported"],
@@ -41,7 +47,9 @@ CFG = {
     "shrink": False,
     "trusted_base": ["compressors and SHA-256 (payload/archive digests are taken from the harness, which computes them with the codec and sha2 crates directly)",
                      "std::path functions used by add_data (model Model/Path.lean, validated separately in C17)"],
-    "assumptions": COMMON_ASSUME + ["valid configuration = RecsOk: NUL-free valid UTF-8 strings, integers in range, header below 2 GiB (explicit hypothesis of the theorems)"],
+    "assumptions": COMMON_ASSUME + ["valid configuration = RecsOk: NUL-free valid UTF-8 strings, integers in range, header below 2 GiB (explicit hypothesis of the "
+                                    "read-back theorems; DERIVED by valid_of_inputs from the arguments of the calls: NUL-free Rust strings, numbers of the width of their "
+                                    "Rust types, total string weight of the state below 10.5 MB, contents below 2^64 bytes)"],
     "level_text": "Theorems for EVERY valid configuration (any field values, any number of files / dependencies / changelog entries): the records prepare_data "
                   "emits have pairwise distinct tags; from_entries yields a well-formed header, so build → write → parse returns the built value (build_reparse); "
                   "each typed getter on that header returns exactly the record's data, hence name, epoch, version, release, arch, licence, summary, description "
@@ -64,7 +72,18 @@ CFG = {
                   "the source and the other setters (explicit_mode_wins), for mode(i32) the word is the integer's low 16 bits and the FILEMODES word equals the cpio c_mode, "
                   "for EVERY i32 incl. those From<i32> maps to Invalid (mode_header_eq_cpio); the FILEFLAGS word is the OR of rpm's attribute bits of the is_* setters called "
                   "(readback_flags_of_setters + file_option_setters_standard: the insert(..) arguments scraped from types.rs are rpm's RPMFILE_* values), a bare "
-                  "FileOptions::new(dest) reads back root / root / no flags / every verify flag (defaults_readback + file_option_defaults_standard). A dependency made by any public Dependency constructor (table regenerated from the source) reads back, under each of the eight kinds, with the constructor's wrapped name, the version and exactly the table's flags (dep_ctor_flags_readback; builder_ctors_in_table; dep_ctor_table_standard: the rows are rpm's RPMSENSE meanings).",
+                  "FileOptions::new(dest) reads back root / root / no flags / every verify flag (defaults_readback + file_option_defaults_standard). The PACKAGE builder's state is a function of the calls (Bld.Cfg.new, MetaSetter.apply; "
+                  "builder_setters_standard / builder_new_standard: the setter table and the two literals of `new` scraped from builder.rs are what the model implements): for the "
+                  "eight Option<String> setters and the nine scriptlet setters the argument of the LAST call is what the state holds, whatever is called before and whatever other "
+                  "setters after (opt_setters_last_call_wins, script_setters_last_call_wins; never called = None: opt_setters_never_called); epoch / release / source_date / "
+                  "compression likewise (plain_setters_last_call_wins); the eight dependency setters and add_changelog_entry accumulate in call order "
+                  "(dep_setters_accumulate_in_order, changelog_accumulates_in_order); no setter touches the arguments of new, the files or the directories "
+                  "(setters_keep_new_args); a sequence interleaving setters and with_file calls leaves Cfg.applyAll of the former and WithFile.buildState of the latter "
+                  "(state_of_calls); composed with the read-back theorems: url_of_calls, provides_of_calls, new_defaults_readback (release \"1\", epoch 0, no optional tag). "
+                  "`Valid` is no longer only a hypothesis: valid_of_cfg derives it from the builder state (NUL-free Rust strings, u32 / u16 numbers, weight bound) and "
+                  "valid_of_inputs / valid_of_args from the ARGUMENTS of PackageBuilder::new and of any call sequence (valid_of_args: the size bound is on the lengths of the arguments themselves, Lemmas/ValidWeight.lean) (Lemmas/RustStr.lean: valid UTF-8 is a fixed point of from_utf8_lossy and "
+                  "closed under concatenation; Lemmas/ValidCalls.lean: directory and base name of a Rust-string destination are Rust strings; Lemmas/ValidInputs.lean: each of the "
+                  "102 slots emits canonical data of bounded length). A dependency made by any public Dependency constructor (table regenerated from the source) reads back, under each of the eight kinds, with the constructor's wrapped name, the version and exactly the table's flags (dep_ctor_flags_readback; builder_ctors_in_table; dep_ctor_table_standard: the rows are rpm's RPMSENSE meanings).",
     "level_note": "Trusted: Lean kernel; model fidelity as exercised (byte-exact header prediction per case); compressors / SHA-256 crates; "
                   "add_data's path handling is C17's model. get_file_entries' composition is a theorem (readback_file_entries) and is also exercised by the correspondence.",
 }
